@@ -203,15 +203,20 @@ fn check(c: &Case) -> Vec<(String, String)> {
         }
     };
     let (spec, expect_syms) = build(c);
+    // p_paddr means nothing to a user-space loader: every other file carries 0 there
+    let paddr_zero = (c.extras as usize + c.sym as usize + c.segs.len() + c.segs[0].2 as usize) % 2 == 1;
+    crate::elfgen::PADDR_ZERO.with(|p| p.set(paddr_zero));
     let file = write(&spec);
+    crate::elfgen::PADDR_ZERO.with(|p| p.set(false));
     let unaligned = c.segs.iter().any(|s| s.1.off != 0);
     let class = format!("{}seg,{}", c.segs.len(), if unaligned { "unaligned-vaddr" } else { "page-aligned" });
     let ctx = format!(
-        "segments {:?} extras {} symtab {} entry {}",
+        "segments {:?} extras {} symtab {} entry {} p_paddr {}",
         c.segs.iter().map(|(slot, sh, fl)| format!("{:#x}+{:#x} filesz {:#x} memsz {:#x} flags {}", slot, sh.off, shape_sizes(sh).0, shape_sizes(sh).1, fl)).collect::<Vec<_>>(),
         c.extras,
         c.sym,
-        c.entry_kind
+        c.entry_kind,
+        if paddr_zero { "0" } else { "= p_vaddr" }
     );
     let ax = match guarded(|| Axecutor::from_binary(&file).map_err(|e| e.to_string())) {
         Err(p) => {
